@@ -264,6 +264,11 @@ class UserKNNScorer(Component[ItemList], Trainable):
                 umean = 0
                 ratings[ui_nos[ui_mask]] = 1.0
 
+            # the stored user vectors are unit vectors; compare like with like (cosine similarity)
+            norm = torch.linalg.vector_norm(ratings)
+            if norm > 0:
+                ratings = ratings / norm
+
             return UserRatings(index, ratings, umean)
 
 
